@@ -191,6 +191,7 @@ func main() {
 		fmt.Fprintf(out, "B %d\n", i)
 		out.Flush()
 		runNo = n + 1
+		wide = tier == "thorough" && i%3 == 2
 		rs := runSeed(*seed, *prop, i)
 		simrt.ResetRunStats()
 		simrt.Seed(rs)
